@@ -55,6 +55,7 @@ mod keys;
 mod oracle;
 mod rec;
 mod rnet;
+mod rsrv;
 mod server;
 mod upstream;
 mod world;
@@ -755,6 +756,82 @@ pub fn fault_kinds<'a>(kinds: impl Iterator<Item = &'a str>) -> String {
 // ---------------------------------------------------------------------------------------------
 // second observation point: wire response of the server (Catalog -> ForwardZoneHandler -> Resolver)
 
+/// The server clauses on one decoded wire response with rcode NOERROR / NXDOMAIN to an RD=1 request
+/// (shared by both server observation points): AD=1 only over genuine, complete RRsets of truly secure
+/// zones in answer and authority; nothing forged in the answer and no denial of existing secure data to
+/// a CD=0 client. Returns (rule, detail, observed).
+pub fn server_wire_alarms(t: &Truth, qname: &Name, qtype: u16, f: server::Flags, w: &server::WireObs) -> Vec<(&'static str, String, Value)> {
+    let mut alarms: Vec<(&'static str, String, Value)> = Vec::new();
+    {
+        let answers: Vec<&Rec> = w.recs.iter().filter(|r| r.sec == SEC_AN && r.rtype != ty::RRSIG).collect();
+        let genuine = |r: &Rec| -> (bool, bool) {
+            // (is a genuine record, of a truly secure zone)
+            let cands = t.genuine(&r.owner, r.rtype);
+            let rd = hier::canon(r.rtype, &r.rdata);
+            let m: Vec<usize> = cands.iter().filter(|(_, set)| set.contains(&rd)).map(|c| c.0).collect();
+            (!m.is_empty(), m.iter().any(|z| t.zones[*z].status == Status::Secure))
+        };
+        for r in w.recs.iter().filter(|r| r.sec != SEC_AR && !matches!(r.rtype, ty::RRSIG)) {
+            let (is_gen, in_secure) = genuine(r);
+            let zs = t.zones_of_record(&r.owner, r.rtype);
+            let zone_insecure = zs.iter().any(|z| t.zones[*z].status == Status::Insecure);
+            if w.ad && !(is_gen && in_secure) {
+                alarms.push(("ad-not-authentic", if is_gen { "record-of-insecure-zone".into() } else { "forged-record".into() }, json!({"record": r.to_json(), "flags": f.label()})));
+            } else if !f.cd && !zone_insecure && !is_gen && r.sec == SEC_AN {
+                alarms.push(("served-forged-to-cd0", "answer".into(), json!({"record": r.to_json(), "flags": f.label()})));
+            }
+        }
+        if w.ad {
+            // complete RRsets only
+            let mut groups: Vec<(Name, u16)> = answers.iter().map(|r| (fold(&r.owner), r.rtype)).collect();
+            groups.sort();
+            groups.dedup();
+            for (o, rt) in groups {
+                let set: std::collections::BTreeSet<Vec<u8>> = answers.iter().filter(|r| fold(&r.owner) == o && r.rtype == rt).map(|r| hier::canon(rt, &r.rdata)).collect();
+                let cands = t.genuine(&o, rt);
+                if cands.iter().any(|(_, g)| set.is_subset(g) && set != *g) {
+                    alarms.push(("ad-not-authentic", "incomplete-rrset".into(), json!({"owner": show(&o), "type": rt, "flags": f.label()})));
+                }
+            }
+        }
+        // a negative conclusion handed to the client
+        let mut n = qname.clone();
+        let mut negative = false;
+        let mut via_insecure = false;
+        for _ in 0..12 {
+            if answers.iter().any(|r| fold(&r.owner) == n && r.rtype == qtype) {
+                break;
+            }
+            if qtype != ty::CNAME {
+                if let Some(cn) = answers.iter().find(|r| fold(&r.owner) == n && r.rtype == ty::CNAME) {
+                    let target = refzone::cname_target(&cn.rdata);
+                    if target == n {
+                        break;
+                    }
+                    if t.zones[t.responsible(&n, ty::CNAME)].status == Status::Insecure {
+                        via_insecure = true;
+                    }
+                    n = target;
+                    continue;
+                }
+            }
+            negative = true;
+            break;
+        }
+        if negative && !via_insecure && !alarms.iter().any(|a| a.0 == "ad-not-authentic" || a.0 == "served-forged-to-cd0") {
+            let zi = t.responsible(&n, qtype);
+            if t.zones[zi].status == Status::Secure && (w.ad || !f.cd) {
+                let k = refzone::ref_auth(&t.zones[zi].full, &n, qtype).first_step().kind;
+                let exists = matches!(k, refzone::Kind::Answer | refzone::Kind::WildcardAnswer) || (qtype != ty::CNAME && matches!(k, refzone::Kind::CnameChain | refzone::Kind::WildcardCname));
+                if exists {
+                    alarms.push(("false-denial-served", if w.ad { "ad1".into() } else { "cd0".into() }, json!({"name": show(&n), "qtype": qtype, "rcode": w.rcode, "ad": w.ad, "flags": f.label(), "ground_truth": k.as_str()})));
+                }
+            }
+        }
+    }
+    alarms
+}
+
 fn flags_from_label(s: &str) -> server::Flags {
     let bit = |k: &str| s.find(k).and_then(|i| s.as_bytes().get(i + k.len())).is_some_and(|c| *c == b'1');
     server::Flags { edns_do: bit("do"), ad: bit("ad"), cd: bit("cd"), rd: bit("rd") }
@@ -796,71 +873,7 @@ impl Judge<'_> {
                     if w.ad {
                         self.rep.count(&format!("server_ad1/{}", if tampered { "tampered" } else { "honest" }));
                     }
-                    let answers: Vec<&Rec> = w.recs.iter().filter(|r| r.sec == SEC_AN && r.rtype != ty::RRSIG).collect();
-                    let genuine = |r: &Rec| -> (bool, bool) {
-                        // (is a genuine record, of a truly secure zone)
-                        let cands = t.genuine(&r.owner, r.rtype);
-                        let rd = hier::canon(r.rtype, &r.rdata);
-                        let m: Vec<usize> = cands.iter().filter(|(_, set)| set.contains(&rd)).map(|c| c.0).collect();
-                        (!m.is_empty(), m.iter().any(|z| t.zones[*z].status == Status::Secure))
-                    };
-                    for r in w.recs.iter().filter(|r| r.sec != SEC_AR && !matches!(r.rtype, ty::RRSIG)) {
-                        let (is_gen, in_secure) = genuine(r);
-                        let zs = t.zones_of_record(&r.owner, r.rtype);
-                        let zone_insecure = zs.iter().any(|z| t.zones[*z].status == Status::Insecure);
-                        if w.ad && !(is_gen && in_secure) {
-                            alarms.push(("ad-not-authentic", if is_gen { "record-of-insecure-zone".into() } else { "forged-record".into() }, json!({"record": r.to_json(), "flags": f.label()})));
-                        } else if !f.cd && !zone_insecure && !is_gen && r.sec == SEC_AN {
-                            alarms.push(("served-forged-to-cd0", "answer".into(), json!({"record": r.to_json(), "flags": f.label()})));
-                        }
-                    }
-                    if w.ad {
-                        // complete RRsets only
-                        let mut groups: Vec<(Name, u16)> = answers.iter().map(|r| (fold(&r.owner), r.rtype)).collect();
-                        groups.sort();
-                        groups.dedup();
-                        for (o, rt) in groups {
-                            let set: std::collections::BTreeSet<Vec<u8>> = answers.iter().filter(|r| fold(&r.owner) == o && r.rtype == rt).map(|r| hier::canon(rt, &r.rdata)).collect();
-                            let cands = t.genuine(&o, rt);
-                            if cands.iter().any(|(_, g)| set.is_subset(g) && set != *g) {
-                                alarms.push(("ad-not-authentic", "incomplete-rrset".into(), json!({"owner": show(&o), "type": rt, "flags": f.label()})));
-                            }
-                        }
-                    }
-                    // a negative conclusion handed to the client
-                    let mut n = st.qname.clone();
-                    let mut negative = false;
-                    let mut via_insecure = false;
-                    for _ in 0..12 {
-                        if answers.iter().any(|r| fold(&r.owner) == n && r.rtype == st.qtype) {
-                            break;
-                        }
-                        if st.qtype != ty::CNAME {
-                            if let Some(cn) = answers.iter().find(|r| fold(&r.owner) == n && r.rtype == ty::CNAME) {
-                                let target = refzone::cname_target(&cn.rdata);
-                                if target == n {
-                                    break;
-                                }
-                                if t.zones[t.responsible(&n, ty::CNAME)].status == Status::Insecure {
-                                    via_insecure = true;
-                                }
-                                n = target;
-                                continue;
-                            }
-                        }
-                        negative = true;
-                        break;
-                    }
-                    if negative && !via_insecure && !alarms.iter().any(|a| a.0 == "ad-not-authentic" || a.0 == "served-forged-to-cd0") {
-                        let zi = t.responsible(&n, st.qtype);
-                        if t.zones[zi].status == Status::Secure && (w.ad || !f.cd) {
-                            let k = refzone::ref_auth(&t.zones[zi].full, &n, st.qtype).first_step().kind;
-                            let exists = matches!(k, refzone::Kind::Answer | refzone::Kind::WildcardAnswer) || (st.qtype != ty::CNAME && matches!(k, refzone::Kind::CnameChain | refzone::Kind::WildcardCname));
-                            if exists {
-                                alarms.push(("false-denial-served", if w.ad { "ad1".into() } else { "cd0".into() }, json!({"name": show(&n), "qtype": st.qtype, "rcode": w.rcode, "ad": w.ad, "flags": f.label(), "ground_truth": k.as_str()})));
-                            }
-                        }
-                    }
+                    alarms.extend(server_wire_alarms(t, &st.qname, st.qtype, f, w));
                 }
             }
         }
@@ -933,6 +946,10 @@ fn main() {
                 }
                 if c["mode"].as_str() == Some("rec") {
                     rec::replay(&mut rep, &lab.attacker, &b, &h.to_json(), c, ctx.extra.contains_key("dump"));
+                    rep.replay_finish();
+                }
+                if c["mode"].as_str() == Some("rsrv") {
+                    rsrv::replay(&mut rep, &lab.attacker, &b, &h.to_json(), c, ctx.extra.contains_key("dump"));
                     rep.replay_finish();
                 }
                 let mut j = Judge { rep: &mut rep, lab: &lab, hier_json: h.to_json(), hier_hash: fnv64(h.to_json().to_string().as_bytes()) };
@@ -1075,15 +1092,17 @@ fn main() {
     let n_hist = if thorough { 8 } else { 4 };
     let n_server = if thorough { 40 } else { 6 };
     let server_on = ctx.extra.get("server").map_or(true, |v| v != "0");
-    // development aid: --only=old | rec | cli | isl runs one part of the workload (the must-counters of the others then fail)
+    // development aid: --only=old | rec | cli | isl | rsrv runs one part of the workload (the must-counters of the others then fail)
     let only = ctx.extra.get("only").cloned();
     let old_on = only.as_deref().map_or(true, |v| v == "old");
     let rec_on = only.as_deref().map_or(true, |v| v == "rec");
     let cli_on = only.as_deref().map_or(true, |v| v == "cli");
     let isl_on = only.as_deref().map_or(true, |v| v == "isl");
+    let rsrv_on = only.as_deref().map_or(true, |v| v == "rsrv");
     let n_hier = if only.as_deref() == Some("isl") { 0 } else { n_hier };
     let isl_params = isl::IParams { n_queries: if thorough { 10 } else { 6 }, cap_single: if thorough { 120 } else { 30 }, n_hist: if thorough { 4 } else { 2 } };
     let cli_params = cli::CParams { n_queries: if thorough { 10 } else { 8 }, cap_single: if thorough { 40 } else { 24 }, n_hist: if thorough { 4 } else { 4 } };
+    let rsrv_params = rsrv::SParams { n_queries: if thorough { 8 } else { 5 }, cap_denial: if thorough { 40 } else { 10 }, cap_other: if thorough { 40 } else { 8 }, cd1_one_in: if thorough { 1 } else { 2 }, do0_one_in: if thorough { 2 } else { 4 } };
     let rec_params = rec::RParams { n_queries: if thorough { 10 } else { 8 }, cap_single: if thorough { 60 } else { 32 }, n_hist: if thorough { 6 } else { 6 } };
 
     for hi in 0..n_hier {
@@ -1126,6 +1145,9 @@ fn main() {
         }
         if cli_on {
             cli::workload(&mut *j.rep, &lab.attacker, &h, hier_hash, &queries, &attacker_tags, &cli_params);
+        }
+        if rsrv_on {
+            rsrv::workload(&mut *j.rep, &lab.attacker, &b, &hj, hier_hash, &queries, &attacker_tags, &rsrv_params);
         }
         if !old_on {
             continue;
